@@ -28,7 +28,7 @@ pub fn dispatch(op: &str, kind: &str, a: &mut Args) -> Option<String> {
     Some(match op {
         // ---- C09: history of a Mixture<Gaussian> (generic struct: no generated history runner).
         // hist.MixtureGaussian - <weights> <mus> <sigmas> <n> steps…   steps: q <x> | lw | w <weights> |
-        //   cw <weights> <mus> <sigmas> (components then weights, sizes may change) | clone | eq
+        //   cw <weights> <mus> <sigmas> (components then weights, sizes may change) | clone | eq | comb <weights> <mus> <sigmas> <warm>
         // every query prints "got fresh" (fresh = Mixture::new_unchecked of the current parameters), pairs joined by " | "
         "hist.MixtureGaussian" => {
             use rv::dist::{Gaussian, Mixture};
@@ -65,6 +65,23 @@ pub fn dispatch(op: &str, kind: &str, a: &mut Args) -> Option<String> {
                     }
                     "clone" => {
                         live = live.clone();
+                    }
+                    // comb <weights> <mus> <sigmas> <warm>: live = Mixture::combine([live, other]); bit 0 of warm queries `other`
+                    // first, bit 1 queries `live` first (an input whose ln_weights cache is filled must not leak into the result)
+                    "comb" => {
+                        let w2 = a.list(|a| a.f());
+                        let mus2 = a.list(|a| a.f());
+                        let sig2 = a.list(|a| a.f());
+                        let warm = a.n();
+                        let other: Mixture<Gaussian> = Mixture::new_unchecked(w2.clone(), mk(&mus2, &sig2));
+                        if warm & 1 == 1 { let _ = other.ln_f(&0.0_f64); }
+                        if warm & 2 == 2 { let _ = live.ln_f(&0.0_f64); }
+                        let old = std::mem::replace(&mut live, Mixture::new_unchecked(vec![], vec![]));
+                        let both = (if old.k() > 0 { 1.0 } else { 0.0 }) + (if other.k() > 0 { 1.0 } else { 0.0 });
+                        live = Mixture::combine(vec![old, other]);
+                        w = w.iter().map(|x| x / both).chain(w2.iter().map(|x| x / both)).collect();
+                        mus.extend(mus2);
+                        sig.extend(sig2);
                     }
                     "eq" => {
                         let fresh: Mixture<Gaussian> = Mixture::new_unchecked(w.clone(), mk(&mus, &sig));
